@@ -37,6 +37,11 @@ class InjectedRngError(RuntimeError):
     """rng_raise fault."""
 
 
+class InjectedValueError(ValueError):
+    """rng_value fault: the generator raises the exception type numpy's own argument checks raise (the library has handlers
+    for ValueError around its weighted picks, which must pass it on)."""
+
+
 CHOICE_POLICIES = (
     "faithful",
     "uniform_support",
@@ -101,6 +106,8 @@ class Scheduler:
                 raise InjectedRngError(f"injected rng failure at call {idx}")
             if f == "interrupt":
                 raise InjectedInterrupt(f"injected interrupt at call {idx}")
+            if f == "value":
+                raise InjectedValueError(f"injected ValueError at call {idx}")
         return idx
 
     def _next_script(self):
